@@ -189,6 +189,9 @@ class Search(abc.ABC):
         if max_evals_strict:
             # TODO: should be replaced by a property with a setter?
             self._evaluator.set_maximum_num_jobs_submitted(max_evals)
+        else:
+            # The cap of a previous strict call must not limit this call
+            self._evaluator.maximum_num_jobs_submitted = -1
 
         # save the search call arguments for the context
         self._call_args.append({"timeout": timeout, "max_evals": max_evals})
